@@ -564,6 +564,37 @@ pub fn gen_c01(rng: &mut Rng, thorough: bool) -> Vec<Tagged> {
             out.push((tag.into(), Case::Net(spec, NetCmd::Backward(x, t))));
         }
     }
+    // gradients after `set_activation` (across the soft-max boundary in both directions, on the output and on a
+    // hidden layer), on ONE network object: backward, switch, backward, learn
+    for r in 0..(if thorough { 18 } else { 6 }) {
+        let k = 3usize;
+        let mut spec = NetSpec::new(Sh::Flat(2).to_shape());
+        let first_softmax = r % 2 == 0;
+        let d1 = Simple::Dense { out: 3, act: if r % 3 == 2 { Act::Softmax } else { Act::Tanh }, bias: true, dropout: None };
+        let d2 = Simple::Dense { out: k, act: if first_softmax { Act::Softmax } else { [Act::Linear, Act::Sigmoid, Act::Tanh][(r / 2) % 3] }, bias: true, dropout: None };
+        spec.weights = Some(vec![LW::One(rand_w(rng, &d1, Sh::Flat(2), 2)), LW::One(rand_w(rng, &d2, Sh::Flat(3), 2))]);
+        spec.layers.push(LayerSpec::One(d1));
+        spec.layers.push(LayerSpec::One(d2));
+        spec.obj = if first_softmax { Obj::CE } else { Obj::MSE };
+        let x = rand_input(rng, Sh::Flat(2), 2);
+        let mut t = vec![0.0f32; k];
+        t[r % k] = 1.0;
+        let t = t1(t);
+        let other = if first_softmax { [Act::Sigmoid, Act::Tanh, Act::Linear][(r / 2) % 3] } else { Act::Softmax };
+        let ops = vec![
+            NetCmd::Backward(x.clone(), t.clone()),
+            NetCmd::SetActivation(1, other),
+            NetCmd::SetObjective(if first_softmax { Obj::MSE } else { Obj::CE }, None),
+            NetCmd::Backward(x.clone(), t.clone()),
+            NetCmd::SetActivation(0, Act::Sigmoid),
+            NetCmd::Backward(x.clone(), t.clone()),
+            NetCmd::Learn { data: vec![(x.clone(), t.clone())], val: None, batch: 1, epochs: 2 },
+            NetCmd::SetActivation(1, if first_softmax { Act::Softmax } else { Act::Linear }),
+            NetCmd::SetObjective(if first_softmax { Obj::CE } else { Obj::MSE }, None),
+            NetCmd::Backward(x, t),
+        ];
+        out.push(("gradients-after-set-activation".into(), Case::Net(spec, NetCmd::Script(ops))));
+    }
     // boundary configurations visited deterministically (see gen_c02): layer-level backward
     let spatial_cases: Vec<(Sh, Simple)> = vec![
         (Sh::Sp(3, 3, 4), Simple::Conv { filters: 3, kernel: (5, 5), stride: (1, 1), padding: (2, 2), dilation: (1, 1), act: Act::Linear, dropout: None }),
